@@ -73,7 +73,7 @@ def oracle(v, run):
 
 
 def check(rep):
-    coq = fw.coq_check("C06", ["SrcBond"])
+    coq = fw.coq_check("C06", ["SrcBond", "SrcCore", "SrcGen"])
     quick = rep.tier == "quick"
     import gen_inputs as gi
     # every sequence of random choices includes the draws: negative and tiny targets (forced, and natural draws of wide Gaussians) must still
